@@ -24,6 +24,10 @@ def clause_code(tok, S, fn='f'):
         return '.%sRETURN(RV(%d))' % ('LR_' if lr else '', S)
     if tok == 'TH':
         return '.THROW(TH(%d))' % S
+    if tok == 'LTH':
+        return '.LR_THROW(TH(%d))' % S
+    if tok == 'Q3':
+        return '.IN_SEQUENCE(*seqs[c.q[0]], *seqs[c.q[1]], *seqs[6 - c.q[0] - c.q[1]])'
     if tok == 'TI':
         return '.THROW(TI(%d))' % S
     if tok == 'Q1':
@@ -57,7 +61,10 @@ def guard(sh):
     """a site is only usable with a mock id of its own mock type (a script naming the wrong one is skipped, not executed)"""
     if sh.get('nm') == 'w':
         return 'if (c.mock != WM_ID || !wmock) return false;'
-    return 'if (c.mock != NM_ID) return false;' if sh.get('nm') else 'if (c.mock < 0 || c.mock >= NMOCK) return false;'
+    g = 'if (c.mock != NM_ID) return false;' if sh.get('nm') else 'if (c.mock < 0 || c.mock >= NMOCK) return false;'
+    if 'Q3' in sh['cl']:      # all three sequence objects must exist
+        g += ' { int q3 = 6 - c.q[0] - c.q[1]; if (q3 < 1 || q3 > NSEQ || q3 == c.q[0] || q3 == c.q[1] || !seqs[q3]) return false; }'
+    return g
 
 def call_text(sh, S):
     fn, pm = sh['fn'], sh['pm']
